@@ -126,6 +126,19 @@ CLAIMS = {
               "inference) x dataset evaluated under ambient none / query / rule; the three outcomes must coincide."),
         design='7/C09', technique='Coq proof over translator-extracted facts + differential correspondence across ambient modes',
         note=BASE_NOTE + " The model is the mode seen during evaluation, not the evaluator itself: that predicates/constructors depend on the mode only through in_symbolic_mode() at call time is assumed (read in predicate.py) and validated by the correspondence."),
+    'C13': dict(
+        text=("Machine-checked: C13_positional / C13_explicit_is_intended (the k-th positional argument after From(d) constrains the k-th "
+              "constructor field, at any nesting depth; proved over the index arithmetic the translator extracts from "
+              "predicate.update_domain_and_kwargs_from_args on every run - the pinned commit's `init_args[i+1]` made it fail and was "
+              "repaired), C13_meaning (the conjunction built for the terms is true exactly when every given field of every term, nested "
+              "ones included, equals its value), C13_rows_complete / C13_rows_sound (the rows are exactly the projections of the "
+              "assignments over the type-filtered domains satisfying those equalities; instances of the C02 evaluator theorems), "
+              "C13_typefilter_members / _order / C13_subclasses_included (a T-variable ranges over exactly the supplied members that are "
+              "instances of T, subclasses at any depth included, in the order supplied). Tie: generated cases over fresh class forests "
+              "(decorated / undecorated subclasses, inherited fields) built in predicate form and in explicit form, caching off and on, "
+              "registry cleared or not; row sets compared with each other, with the P-model and with the brute-force specification."),
+        design='7/C13', technique='Coq proof over translator-extracted index arithmetic + instances of the C02 evaluator theorems + differential correspondence predicate form vs explicit form',
+        note=BASE_NOTE + " A nested term used as a field value is read as the conjunction of its own equalities (C15's reading of a quantifier used as an operand); that the evaluator treats an An(...) operand so is covered by the correspondence, not by a theorem. Row ORDER of predicate-form queries is not claimed (sets)."),
 }
 
 NOT_YET = {}
